@@ -207,3 +207,103 @@ func keysOf(m map[int]bool) []int {
 	}
 	return ks
 }
+
+// tallC15: a tall tree (branch factor 2, keys 1..N) where a high-layer key is deleted - leaving
+// pass-through nodes high up - and one more entry is changed somewhere else; both versions are
+// derived incrementally from one persisted base. Every (high key, grid position) of the family, both
+// diff directions. The 2*D+2 bound is only tight on tall trees, which the small universes cannot provide.
+func tallC15(run *report.Run, acc *pairAcc, n int, gridStep int) {
+	var keys []interface{}
+	for i := 1; i <= n; i++ {
+		keys = append(keys, uint(i))
+	}
+	cfg := world.UintCfg(2, keys, 1, ref.FormatBinary, "none")
+	cfg.Name = fmt.Sprintf("tall/uint 1..%d/bf2", n)
+	cfg.Probes = []interface{}{uint(n + 1000)}
+	w, err := world.New(cfg)
+	if err != nil {
+		run.HarnessError("tall: %v", err)
+		return
+	}
+	t0 := w.Trees[0]
+	for _, k := range keys {
+		if err := t0.Insert(ctx, k, "a"); err != nil {
+			run.HarnessError("tall: %v", err)
+			return
+		}
+	}
+	root0, err := t0.MakeRoot(ctx)
+	if err != nil {
+		run.HarnessError("tall: %v", err)
+		return
+	}
+	var high []uint
+	for i := 1; i <= n; i++ {
+		if ref.UintLayer(uint64(i), 2)+5 >= uint8(root0.Height) {
+			high = append(high, uint(i))
+		}
+	}
+	var pairs int64
+	codec := codecFor(cfg)
+	mk := func(root *mast.Root) *version {
+		t, err := root.LoadMast(ctx, w.RemoteConfig(w.Store, false))
+		if err != nil {
+			return nil
+		}
+		reach, err := codec.Reach(cfg.KS, storeGet(w.Store), linkOf(root))
+		if err != nil {
+			return nil
+		}
+		return &version{w: w, t: t, root: root, link: linkOf(root), reach: reach, c: world.Contents{M: map[int]int{}, Size: root.Size}}
+	}
+	for _, h := range high {
+		ta, err := root0.LoadMast(ctx, w.RemoteConfig(w.Store, false))
+		if err != nil {
+			continue
+		}
+		if err := ta.Delete(ctx, h, "a"); err != nil {
+			continue
+		}
+		rootA, err := ta.MakeRoot(ctx)
+		if err != nil {
+			continue
+		}
+		// second positions: a grid over all keys, and every other high-layer key (a short changed path
+		// keeps D small, which is when the bound is tight)
+		var xs []int
+		for x := 1; x <= n; x += gridStep {
+			xs = append(xs, x)
+		}
+		for _, hx := range high {
+			xs = append(xs, int(hx))
+		}
+		for _, x := range xs {
+			if uint(x) == h {
+				continue
+			}
+			tb, err := rootA.LoadMast(ctx, w.RemoteConfig(w.Store, false))
+			if err != nil {
+				continue
+			}
+			if err := tb.Insert(ctx, uint(x), "b"); err != nil {
+				continue
+			}
+			rootB, err := tb.MakeRoot(ctx)
+			if err != nil {
+				continue
+			}
+			a, b := mk(rootA), mk(rootB)
+			if a == nil || b == nil {
+				continue
+			}
+			pairs += 2
+			desc := []string{cfg.Name, fmt.Sprintf("version A = all keys without %d; version B = A with key %d set to another value", h, x)}
+			acc.add(cfg, "C15", checkDiffCost(cfg, a, b), desc)
+			acc.add(cfg, "C15", checkDiffCost(cfg, b, a), desc)
+		}
+	}
+	run.Parts = append(run.Parts, map[string]interface{}{"config": cfg.Name, "height": root0.Height, "high_layer_keys_deleted": len(high), "grid_step": gridStep, "ordered_pairs": pairs})
+	run.Transitions += pairs
+	run.Evals += pairs
+	run.Distinct += pairs
+}
